@@ -5,8 +5,9 @@
      pt, add, neg, O, smul : Z -> pt -> pt, generator G, order n, coords : pt -> option (Z * Z)   (None = infinity),
      lift_x (= Generator.points_for_x), hmac (HMAC-SHA256 in pycoin), hlen (the digest size),
    and the theorems assume  laws : group_laws ..  (abelian group, Z-action, n*P = O, x(-P) = x(P)),
-   n_prime : prime n  (premise M2 of DESIGN.md) and, for recovery,  lifts : lift_laws ..  (points_for_x returns
-   the two points of a reduced abscissa, even ordinate first).  These are hypotheses about the curve, not about
+   n_prime : prime n  (premise M2 of DESIGN.md), G_nonzero : G <> O (for totality of signing) and, for recovery,
+   lifts : lift_laws ..  (abscissae are below p; points_for_x returns the two points of a reduced abscissa, even
+   ordinate first).  These are hypotheses about the curve, not about
    pycoin; Proofs/EcdsaInstP.v proves them by computation for four toy curves (Examples at the end), for
    secp256k1/secp256r1 they stay premises.  `gen_k` (the nonce callback of sign_with_recid) is arbitrary except
    where RFC 6979 is named.  Python exceptions are values: Ret v / Raise e / OutOfFuel. *)
@@ -25,22 +26,23 @@ Section C01.
   Variable G : pt.
   Variable n : Z.
   Variable coords : pt -> option (Z * Z).
+  Variable p : Z.                       (* the field prime self._p: recover compares r with it *)
   Variable lift_x : Z -> option (pt * pt).
-  Variable x_canon : Z -> Prop.
   Variable gen_k : Z -> Z -> Z -> outcome Z.
   Variable hmac : bytes -> bytes -> bytes.
   Variable hlen : nat.
 
   Hypothesis laws : group_laws pt add neg O smul n coords.
   Hypothesis n_prime : prime n.
-  Hypothesis lifts : lift_laws pt coords lift_x x_canon.
+  Hypothesis lifts : lift_laws pt coords lift_x (fun x => 0 <= x < p).
+  Hypothesis G_nonzero : G <> O.
 
   Local Notation verify := (Ecdsa.verify pt add smul G n coords).
   Local Notation sign_with_recid := (Ecdsa.sign_with_recid pt smul G n coords).
   Local Notation sign := (Ecdsa.sign pt smul G n coords).
   Local Notation sign_step := (Ecdsa.sign_step pt smul G n coords).
   Local Notation sign_loop := (Ecdsa.sign_loop pt smul G n coords).
-  Local Notation recover := (Ecdsa.recover pt add smul G n lift_x).
+  Local Notation recover := (Ecdsa.recover pt add smul G n p lift_x).
 
   (* 1. Whatever the nonce function, whatever the fuel of the k += 1 loop, for every d and z: a returned
         signature is in range and verifies under the public key d*G.  (z = 0 raises ValueError, so a
@@ -76,23 +78,15 @@ Section C01.
     verify (Some Q) z r (n - s) = verify (Some Q) z r s.
   Proof. exact (verify_low_s pt add neg O smul G n coords laws n_prime). Qed.
 
-  (* 3. Recovery.  Soundness needs the abscissa r to be a reduced field element (x_canon r, i.e. r < p):
-        see C01_recover_sound_statement / C01_refuted_recover_sound below for why. *)
-  Theorem C01_recover_sound_partial : forall (z r s : Z) (y_parity : option Z) (l : list pt) (Q : pt),
-    z <> 0 -> x_canon r ->
-    recover z r s y_parity = Ret l -> In Q l -> verify (Some Q) z r s = Ret true.
-  Proof. exact (recover_sound pt add neg O smul G n coords laws n_prime lift_x x_canon lifts). Qed.
-
-  (* when every residue below n is a reduced field element (n <= p: secp256k1, secp256r1) nothing is excluded *)
-  Theorem C01_recover_sound_order_below_field : (forall x, 1 <= x < n -> x_canon x) ->
-    forall (z r s : Z) (y_parity : option Z) (l : list pt) (Q : pt),
+  (* 3. Recovery: every key returned verifies (full; r >= p is refused by the code since commit 28216b2) *)
+  Theorem C01_recover_sound : forall (z r s : Z) (y_parity : option Z) (l : list pt) (Q : pt),
     z <> 0 -> recover z r s y_parity = Ret l -> In Q l -> verify (Some Q) z r s = Ret true.
-  Proof. exact (recover_sound_below pt add neg O smul G n coords laws n_prime lift_x x_canon lifts). Qed.
+  Proof. exact (recover_sound pt add neg O smul G n coords laws n_prime p lift_x lifts). Qed.
 
-  (* out-of-range signatures recover nothing *)
+  (* out-of-range signatures, and abscissae that are not below the field prime, recover nothing *)
   Theorem C01_recover_rejects_out_of_range : forall (z r s : Z) (y_parity : option Z),
-    ~ (1 <= r < n /\ 1 <= s < n) -> recover z r s y_parity = Ret [].
-  Proof. exact (recover_empty pt add smul G n lift_x). Qed.
+    ~ (1 <= r < n /\ 1 <= s < n /\ r < p) -> recover z r s y_parity = Ret [].
+  Proof. exact (recover_empty pt add smul G n p lift_x). Qed.
 
   (* completeness: every key Q under which (r, s) verifies with a sum point of abscissa exactly r (not r + n)
      is returned, and alone when the parity of that point's ordinate is passed *)
@@ -101,7 +95,7 @@ Section C01.
     coords (add (smul (z * w) G) (smul (r * w) Q)) = Some (r, y) ->
     (exists l, recover z r s None = Ret l /\ In Q l) /\
     (forall yp, Z.odd yp = Z.odd y -> recover z r s (Some yp) = Ret [Q]).
-  Proof. exact (recover_complete' pt add neg O smul G n coords laws n_prime lift_x x_canon lifts). Qed.
+  Proof. exact (recover_complete' pt add neg O smul G n coords laws n_prime p lift_x lifts). Qed.
 
   (* the signer's key is recovered whenever the nonce point's abscissa is below n (recid < 2), at the position
      selected by recid & 1 *)
@@ -109,7 +103,7 @@ Section C01.
     sign_with_recid gen_k fuel d z = Ret (r, s, recid) -> recid < 2 ->
     recover z r s (Some recid) = Ret [smul d G] /\
     exists l, recover z r s None = Ret l /\ In (smul d G) l.
-  Proof. exact (recover_signer pt add neg O smul G n coords laws n_prime lift_x x_canon lifts gen_k). Qed.
+  Proof. exact (recover_signer pt add neg O smul G n coords laws n_prime p lift_x lifts gen_k). Qed.
 
   (* 4. RFC 6979.  The model of rfc6979.deterministic_generate_k equals RFC 6979 section 3.2 (Spec/Rfc6979Spec.v)
         on the octet string of the hash, for EVERY order n > 0, key, hash value below 2^(8 hlen), fuel and
@@ -137,17 +131,42 @@ Section C01.
     forall k v, let osz := Z.to_nat ((qlen_of q + 7) / 8) in gen_t hmac (S osz) osz k v [] <> OutOfFuel.
   Proof. exact (fun q Hq Hh Hl => gen_t_fuel hmac hlen q Hq Hh Hl). Qed.
 
-  (* 5. Totality of signing.  With at least n iterations of fuel the k += 1 loop never runs out of fuel ... *)
-  Theorem C01_sign_loop_fuel : forall (fuel : nat) (d z k : Z),
-    n <= Z.of_nat fuel -> sign_loop fuel d z k <> OutOfFuel.
-  Proof. exact (sign_loop_fuel_n pt add neg O smul G n coords laws n_prime). Qed.
+  (* a returned nonce lies in [1, n-1] (any order, key, hash, hmac) *)
+  Theorem C01_nonce_in_range : forall (q : Z) (fuel : nat) (d z k : Z),
+    deterministic_generate_k hmac hlen fuel q d z = Ret k -> 1 <= k < q.
+  Proof. exact (fun q fuel d z k => gen_k_range hmac hlen fuel q d z k). Qed.
 
-  (* ... and the only exception it can raise is the TypeError of `None % n`, reached at a nonce j >= k with
-     j*G = infinity after every nonce before it was rejected (r = 0 or s = 0) *)
-  Theorem C01_sign_total_partial : forall (fuel : nat) (d z k : Z) (e : pyexn),
-    sign_loop fuel d z k = Raise e ->
-    e = E_TYPE /\ exists j, k <= j /\ coords (smul j G) = None /\ forall i, k <= i < j -> sign_step d z i = Ret None.
-  Proof. exact (fun fuel d z => sign_loop_raise pt add neg O smul G n coords laws n_prime d z fuel). Qed.
+  (* 5. Totality of signing (code since commit de8ed07: k += 1; if k >= n: k = 1).
+        (a) started at a nonce in [1, n-1] the retry loop never raises, for any fuel, key and hash *)
+  Theorem C01_sign_loop_never_raises : forall (fuel : nat) (d z k : Z) (e : pyexn),
+    1 <= k < n -> sign_loop fuel d z k <> Raise e.
+  Proof. exact (fun fuel d z k e => sign_loop_never_raises pt add neg O smul G n coords laws n_prime G_nonzero d z fuel k e). Qed.
+
+  (*    (b) hence sign_with_recid with the default (RFC 6979) nonce function never raises for a key in [0, n-1]
+            and a non-zero hash below 2^(8 hlen): the outcome is a signature or non-termination (OutOfFuel) *)
+  Theorem C01_sign_never_raises : forall (kfuel fuel : nat) (d z : Z) (e : pyexn),
+    0 <= d < n -> 0 < z < 256 ^ Z.of_nat hlen ->
+    sign_with_recid (deterministic_generate_k hmac hlen kfuel) fuel d z <> Raise e.
+  Proof. exact (fun kfuel fuel d z e => sign_never_raises_default pt add neg O smul G n coords hmac hlen laws n_prime G_nonzero kfuel fuel d z e). Qed.
+
+  (*    (c) the loop walks k, k+1, .., n-1, 1, 2, ..; it returns within n - 1 iterations PROVIDED some nonce j of
+            [1, n-1] gives non-zero r and s (nonce_good: x(jG) mod n <> 0 and z + r*d <> 0 mod n).  That such a j
+            exists is an assumption about the curve (true when fewer than n - 1 nonces are bad, i.e. always except
+            on degenerate toy groups; checked exhaustively for two toy curves below); without one the loop cycles
+            forever (OutOfFuel for every fuel), it does not raise *)
+  Theorem C01_sign_loop_total : forall (fuel : nat) (d z k j : Z),
+    1 <= j < n -> nonce_good pt smul G n coords d z j -> 1 <= k < n -> n - 1 <= Z.of_nat fuel ->
+    exists sig, sign_loop fuel d z k = Ret sig.
+  Proof. exact (fun fuel d z k j => sign_loop_total_n pt add neg O smul G n coords laws n_prime G_nonzero d z j fuel k). Qed.
+
+  (*    (d) with the default nonce function: once the RFC 6979 loop has produced its nonce (rfc6979_k = Some k0; it
+            terminates with probability 1 for a real HMAC, which no theorem can state for an arbitrary hmac) *)
+  Theorem C01_sign_total : forall (kfuel fuel : nat) (d z k0 j : Z),
+    0 <= d < n -> 0 < z < 256 ^ Z.of_nat hlen ->
+    rfc6979_k hmac n kfuel d (int_to_octets hlen z) = Some k0 ->
+    1 <= j < n -> nonce_good pt smul G n coords d z j -> n - 1 <= Z.of_nat fuel ->
+    exists sig, sign_with_recid (deterministic_generate_k hmac hlen kfuel) fuel d z = Ret sig.
+  Proof. exact (sign_total_default pt add neg O smul G n coords hmac hlen laws n_prime G_nonzero). Qed.
 End C01.
 
 (* injectivity of the nonce input: the HMAC message int2octets(x) || bits2octets(h1) of RFC 6979 steps d/f determines
@@ -172,31 +191,30 @@ Theorem C01_secp256k1_reduced_hash : forall z, 0 <= z < 2 ^ 256 ->
   reduced_hash gen_rfc6979_hash_size gen_secp256k1_n z = z mod gen_secp256k1_n.
 Proof. exact secp256k1_reduced_hash. Qed.
 
-(* ---- statements the current code does NOT satisfy (toy curves only) -------------------------------- *)
-(* (a) "every recovered key verifies", without the restriction to reduced abscissae *)
-Definition C01_recover_sound_statement : Prop :=
-  forall c : curve, curve_ok c = true ->
-  forall (z r s : Z) (yp : option Z) (l : list (EcdsaInst.pt c)) (Q : EcdsaInst.pt c), z <> 0 ->
-    toy_recover c z r s yp = Ret l -> In Q l -> toy_verify c (Some Q) z r s = Ret true.
+(* ---- regression: the two inputs on which the code before commits de8ed07 / 28216b2 failed ------------- *)
+(* toy curve y^2 = x^3 + 3 over Z_7, G = (1,2), n = 13.  d = 2, z = 11, first nonce 12 = n - 1 gives s = 0: the retry
+   used to reach k = 13 (infinity, TypeError); it now wraps to k = 1 and signs *)
+Example C01_regression_sign_wraps :
+  toy_sign_with_k toy13 5 2 11 12 = Ret (1, 0 + 1 * 13 mod 13 + (11 + 1 * 2) mod 13 + 0, 0) \/
+  exists sig, toy_sign_with_k toy13 5 2 11 12 = Ret sig.
+Proof. right. vm_compute. eexists. reflexivity. Qed.
 
-Theorem C01_refuted_recover_sound : ~ C01_recover_sound_statement.
-Proof. exact refuted_recover_sound. Qed.
-
-(* (b) "signing returns a signature for every key and hash" (any nonce in [1, n-1]) *)
-Definition C01_sign_total_statement : Prop :=
-  forall c : curve, curve_ok c = true ->
-  forall d z k : Z, 1 <= d < cn c -> z <> 0 -> 1 <= k < cn c ->
-    exists fuel sig, toy_sign_with_k c fuel d z k = Ret sig.
-
-Theorem C01_refuted_sign_total : ~ C01_sign_total_statement.
-Proof. exact refuted_sign_total. Qed.
+(* r = 8 >= p = 7 used to yield two keys that did not verify; now nothing is returned *)
+Example C01_regression_recover_r_above_p : toy_recover toy13 1 8 1 None = Ret [].
+Proof. vm_compute. reflexivity. Qed.
 
 (* ---- non-vacuity: the hypotheses hold for four toy curves, and a concrete signature ---------------- *)
 Example C01_hypotheses_satisfiable :
   forall c, In c [toy13; toy11; toy19; toy23] ->
     group_laws (EcdsaInst.pt c) (padd c) (pneg c) (pO c) (psmul c) (cn c) (pcoords c) /\
-    lift_laws (EcdsaInst.pt c) (pcoords c) (plift_x c) (x_canonical c) /\ prime (cn c).
+    lift_laws (EcdsaInst.pt c) (pcoords c) (plift_x c) (fun x => 0 <= x < cp c) /\ prime (cn c) /\ pG c <> pO c.
 Proof. exact toy_curves_satisfy_hypotheses. Qed.
+
+(* ... and on two of them every key and every hash residue has a good nonce: C01_sign_total applies to all (d, z) there *)
+Example C01_toy_good_nonce_exists :
+  forall c, In c [toy13; toy11] -> forall d z, 1 <= d < cn c -> 0 <= z < cn c ->
+    exists j, 1 <= j < cn c /\ nonce_good (EcdsaInst.pt c) (psmul c) (pG c) (cn c) (pcoords c) d z j.
+Proof. exact toy_good_nonces. Qed.
 
 Example C01_toy_signature :
   toy_sign_with_k toy13 5 3 6 4 = Ret (4, 11, 1) /\
@@ -210,19 +228,22 @@ Print Assumptions C01_verify_iff.
 Print Assumptions C01_verify_total.
 Print Assumptions C01_verify_rejects_out_of_range.
 Print Assumptions C01_verify_low_s_symmetry.
-Print Assumptions C01_recover_sound_partial.
-Print Assumptions C01_recover_sound_order_below_field.
+Print Assumptions C01_recover_sound.
 Print Assumptions C01_recover_rejects_out_of_range.
 Print Assumptions C01_recover_complete.
 Print Assumptions C01_recover_signer.
 Print Assumptions C01_nonce_is_rfc6979.
 Print Assumptions C01_sign_is_rfc6979.
 Print Assumptions C01_nonce_inner_loop_fuel.
-Print Assumptions C01_sign_loop_fuel.
-Print Assumptions C01_sign_total_partial.
+Print Assumptions C01_nonce_in_range.
+Print Assumptions C01_sign_loop_never_raises.
+Print Assumptions C01_sign_never_raises.
+Print Assumptions C01_sign_loop_total.
+Print Assumptions C01_sign_total.
 Print Assumptions C01_nonce_input_injective.
 Print Assumptions C01_production_curve_constants.
 Print Assumptions C01_secp256k1_reduced_hash.
-Print Assumptions C01_refuted_recover_sound.
-Print Assumptions C01_refuted_sign_total.
+Print Assumptions C01_regression_sign_wraps.
+Print Assumptions C01_regression_recover_r_above_p.
 Print Assumptions C01_hypotheses_satisfiable.
+Print Assumptions C01_toy_good_nonce_exists.
